@@ -98,7 +98,44 @@ PROPS = {
         'trusted': SPECTRUM_TRUST[:2],
         'extra': [{'name': 'oms_partition', 'kind': 'bounded', 'script': 'bounded/oms_partition.py', 'timeout': 1200}],
     },
-    'C09': {'level': 'proof', 'claim': 'uc', 'level_note': 'uc', 'trusted': NUMPY_TRUST, 'not_applicable': 'under construction'},
-    'C10': {'level': 'proof', 'claim': 'uc', 'level_note': 'uc', 'trusted': NUMPY_TRUST, 'not_applicable': 'under construction'},
-    'C08': {'level': 'proof', 'claim': 'uc', 'level_note': 'uc', 'trusted': NUMPY_TRUST, 'not_applicable': 'under construction'},
+    'C08': {
+        'level': 'proof',
+        'claim': 'Proved on the real functions: calculate_new_length (n >= 1, n x span = original length, no span above the '
+                 'maximum, short fibres untouched); the loop bodies of add_connector_loss (losses set, EOL once, not before a '
+                 'fused junction) and add_fiber_padding (span loss >= padding, padded only as needed, cached design loss = '
+                 'actual loss); set_amplifier_voa / set_one_amplifier (model from the library, gain, VOAs and power target '
+                 'set); per-degree ROADM targets populated with exactly one policy.',
+        'level_note': 'graph-level claims (one-in/one-out chains, unique names, reachability, every junction amplified, equal '
+                      'split of long fibres) are a bounded stand-in: real designed_network on topologies <= 4 ROADM sites; '
+                      'span_loss / get_next_node / find_first_node are ghost parameters (networkx assumed)',
+        'trusted': ['networkx DiGraph accessors (ghost successors/first node of a span)'],
+        'extra': [{'name': 'design_complete', 'kind': 'bounded', 'script': 'bounded/design_complete.py', 'timeout': 1500}],
+    },
+    'C09': {
+        'level': 'proof',
+        'claim': 'Proved for all parameter values: target_power (0 before a ROADM, else slope x (loss - ref) rounded to the '
+                 'step and clamped to the range); round2float within half a step; compute_gain_power_and_tilt_target '
+                 '(gain = loss since the previous amplifier + change of target + VOA terms; operator offset/gain kept); '
+                 'set_one_amplifier with an operator-chosen model (reduction exactly as needed against p_max in power and '
+                 'gain mode, hand-over to the next amplifier = power after the VOA); set_amplifier_voa compensation.',
+        'level_note': 'the OMS walk of set_egress_amplifier is checked bounded on designed small topologies (gain = loss + '
+                      'change of target along every OMS); "propagating the design load reproduces the powers" depends on '
+                      'the gain-profile normalisation (C04, not proved) and is not claimed; span_loss is a ghost',
+        'trusted': ['span_loss (graph walk) as a ghost function of (network, node)'],
+        'extra': [{'name': 'design_power_budget', 'kind': 'bounded', 'script': 'bounded/design_complete.py', 'args': ['--powers'],
+                   'timeout': 1500}],
+    },
+    'C10': {
+        'level': 'proof',
+        'claim': 'select_edfa proved on arbitrary three-model libraries (values unbounded): chosen is permitted, Raman only '
+                 'if allowed, and if any permitted model can deliver gain and power the chosen one can and none capable is '
+                 'quieter; get_node_restrictions precedence (own list, previous ROADM booster list, next ROADM preamp list, '
+                 'allowed_for_design) with band coverage; Raman models only after a fibre whose loss coefficient is below '
+                 'the limit at every frequency.',
+        'level_note': 'library size fixed to three models in the select_edfa contract; edfa_nf is an assumed pure function '
+                      '(NF models are C04); capability uses the strict inequalities of the code; multiband preselection '
+                      '(preselect_multiband_amps) is not under contract',
+        'trusted': ['edfa_nf as a pure function of (gain, model)'],
+        'extra': [],
+    },
 }
